@@ -41,7 +41,8 @@ the tenth to failure-and-recovery paths (something fails or is aborted - a sessi
 parse, a compilation, a Join - and the same process, object or connection is used again), the
 eleventh to flow control (fine on generously buffered transports, broken on synchronous or
 tiny-buffer ones) and to aliasing and retention (a value returned to or passed by the caller
-shares memory with library state).
+shares memory with library state), the twelfth to two cooperating sites that are each correct
+alone and to rarely used options and secondary entry points.
 All %d changes were
 confirmed by `bin/confirm-seeded` (patch applies to HEAD; `go build ./...`; `go test` of every
 package except the root passes; the demonstration fails with the change and passes without it) and
@@ -81,6 +82,10 @@ The eleventh wave: eleven caught at once (transport capacities 0, 1 and 16 bytes
 reads, second runs and sessions whose results are judged only after everything else has
 happened were all there), three after an extension (a caller that edits what it was given, a
 caller that reuses its result buffer, results of 65 thousand bits and more).
+The twelfth wave: eight caught at once, six after an extension - every one a member of a
+quantifier nobody had tried: the verbose flag, an empty slice of zero-width elements, a native
+circuit with OR gates, label and bit batches on one IKNP pair, one endpoint spelled two ways, a
+key buffer the caller refills.
 
 ''' % (ordn[len(waves) - 1].capitalize(), len(rows), len(own), len(missed), len(rows), per_wave, ', '.join(m['name'] for m in notcaught))
 out += '''| change | property | what was changed | needs | clause that fires | missed at first? |
@@ -185,6 +190,11 @@ What the misses taught (kept as rules for the workloads):
 * Buffers have two sides: a result wider than every buffer between the parties deadlocks a
   reply-as-you-read loop (C05-k). (And the generator must not be quadratic in the compiler: the
   first wide-result family cost 5 GB per case and killed the shrinking worker.)
+
+* "Every", "any", "whichever" in a property mean the options too: verbose and diagnostics flags
+  (C16-l), circuits from other tools (C05-l), the second form of the same primitive on the same
+  object (C06-l), the other spelling of the same address (C19-l), the empty slice (C14-l), the key
+  buffer a caller refills (C17-l). Each is one more tape choice in a world.
 
 Own mutants (`/verif/mutants/*.diff`; `revert-<commit>` is a `fix:` commit reversed): ''' + ', '.join(own) + '''.
 
